@@ -17,6 +17,13 @@ fn main() {
         std::process::exit(2);
     }
     let prop = argv[1].to_uppercase();
+    // diagnosis only: LPVERIF_LOG=<env-filter> prints litep2p's tracing output to stderr
+    if let Ok(filter) = std::env::var("LPVERIF_LOG") {
+        let _ = tracing_subscriber::fmt()
+            .with_env_filter(tracing_subscriber::EnvFilter::new(filter))
+            .with_writer(std::io::stderr)
+            .try_init();
+    }
     let mut ctx = Ctx {
         tier: Tier::Quick,
         seed: 1,
